@@ -22,9 +22,25 @@ STUBS = {
         ("tracing_core::callsite::DefaultCallsite::interest", "crate::env::tracing_interest"),
         ("tracing::__macro_support::__is_enabled", "crate::env::tracing_is_enabled"),
         ("tracing_core::event::Event::dispatch", "crate::env::tracing_dispatch"),
+        ("tracing_core::dispatcher::has_been_set", "crate::env::tracing_has_been_set"),
     ],
     # anyhow captures a backtrace (getenv): disabled
-    "backtrace": [("std::backtrace::Backtrace::capture", "crate::env::backtrace_disabled")],
+    "backtrace": [("std::backtrace::Backtrace::capture", "crate::env::backtrace_disabled"),
+                  ("n0_error::backtrace_enabled", "crate::env::n0_backtrace_enabled"),
+                  ("<anyhow::Error as core::ops::Drop>::drop", "crate::env::anyhow_drop")],
+    # ideal signature scheme (DESIGN.md §3.3): ed25519 trusted, glue verified
+    "crypto": [
+        ("iroh::PublicKey::from_bytes", "iroh_docs::verif_incrate::crypto::pk_from_bytes"),
+        ("iroh::PublicKey::verify", "iroh_docs::verif_incrate::crypto::pk_verify"),
+        ("iroh::SecretKey::from_bytes", "iroh_docs::verif_incrate::crypto::sk_from_bytes"),
+        ("iroh::SecretKey::to_bytes", "iroh_docs::verif_incrate::crypto::sk_to_bytes"),
+        ("iroh::SecretKey::public", "iroh_docs::verif_incrate::crypto::sk_public"),
+    ],
+    # wall clocks: thread_local / clock_gettime
+    "time": [("tokio::time::Instant::now", "crate::env::tokio_instant_now"),
+             ("std::time::SystemTime::now", "crate::env::system_time_now")],
+    # blake3::Hash equality is constant_time_eq_32 (inline asm): plain comparison
+    "cteq": [("constant_time_eq::constant_time_eq_32", "crate::env::ct_eq_32")],
 }
 DEFAULT_STUBS = ["bytes", "tracing", "backtrace"]
 
@@ -66,6 +82,55 @@ h("put_step_n3", "ranger_l::put_step::<S, 3>", ["C02", "C01"], "quick", unwind=4
 h("put_step_n4", "ranger_l::put_step::<S, 4>", ["C02", "C01"], "quick", unwind=5, family="put_step")
 h("put_commute_n4", "ranger_l::put_commute::<S, 4>", ["C02", "C04"], "quick", unwind=5, family="put_commute")
 h("put_commute_n5", "ranger_l::put_commute::<S, 5>", ["C02", "C04"], "thorough", unwind=6, family="put_commute")
+
+# =============================================================================================
+# sync.rs kernels (E1): C03 validation, C01 S1-S2 orders, C07 capabilities, C09 layouts
+# =============================================================================================
+SYNC_STUBS = DEFAULT_STUBS + ["crypto", "cteq"]
+UW_MSG = {r"^memcmp\.0$": 122}
+for kh, ke, tier in [(1, 1, "quick"), (0, 1, "quick"), (2, 1, "thorough"), (2, 2, "thorough")]:
+    h("validate_entry_accepts_%d_%d" % (kh, ke), "sync::validate_entry_accepts::<S, %d, %d>" % (kh, ke), ["C03"], tier,
+      unwind=5, unwindset=UW_MSG, stubs=SYNC_STUBS, family="validate_entry_accepts")
+h("validate_empty_table", "sync::validate_empty_table::<S>", ["C03"], "quick", unwind=4, unwindset={r"^memcmp\.0$": 34}, stubs=SYNC_STUBS)
+for k in (0, 2):
+    h("entry_encode_layout_%d" % k, "sync::entry_encode_layout::<S, %d>" % k, ["C03", "C09", "C01"], "quick", unwind=4,
+      unwindset=UW_MSG, stubs=SYNC_STUBS, family="entry_encode_layout")
+h("record_order", "sync::record_order::<S>", ["C01", "C02", "C08"], "quick", unwind=4, unwindset={r"^memcmp\.0$": 34}, stubs=SYNC_STUBS)
+for k1, k2, tier in [(1, 1, "quick"), (1, 2, "quick"), (0, 1, "quick"), (2, 2, "thorough")]:
+    h("record_id_order_%d_%d" % (k1, k2), "sync::record_id_order::<S, %d, %d>" % (k1, k2), ["C01", "C08"], tier, unwind=4,
+      unwindset={r"^memcmp\.0$": 68}, stubs=SYNC_STUBS, family="record_id_order")
+h("capability_merge", "sync::capability_merge::<S>", ["C07"], "quick", unwind=4, unwindset={r"^memcmp\.0$": 34, r"crypto::ideal_public\.0": 33, r"zeroize::Zeroize>::zeroize\.0": 34}, stubs=SYNC_STUBS)
+h("capability_raw_roundtrip", "sync::capability_raw_roundtrip::<S>", ["C07", "C09"], "quick", unwind=4,
+  unwindset={r"^memcmp\.0$": 34, r"crypto::ideal_public\.0": 33, r"zeroize::Zeroize>::zeroize\.0": 34}, stubs=SYNC_STUBS)
+
+# =============================================================================================
+# C11: two-node product over the real PeerState transition functions (E1)
+# =============================================================================================
+C11_STUBS = DEFAULT_STUBS + ["time"]
+UW_C11 = {r"^memcmp\.0$": 34}
+for fam in ("single_dial", "resync", "not_syncing"):
+    h("c11_" + fam, "engine_state::c11_%s::<S>" % fam, ["C11"], "quick", unwind=4, unwindset=UW_C11, stubs=C11_STUBS, family="c11_" + fam)
+for f in (False, True):
+    h("c11_redial_race_%d" % f, "engine_state::c11_redial_race::<S, %s>" % str(f).lower(), ["C11"], "quick", unwind=4,
+      unwindset=UW_C11, stubs=C11_STUBS, family="c11_redial_race")
+# simultaneous dial: flag bits, see the body; meaningless combinations skipped
+for F in range(32):
+    xy_lost, yx_lost, y_first, x_early, yacc_early = F & 1, F & 2, F & 4, F & 8, F & 16
+    if y_first and not yx_lost:
+        continue
+    if yacc_early and xy_lost:
+        continue
+    quick = F in (0, 1, 2, 3, 8, 9, 6, 16, 24)
+    h("c11_simultaneous_dial_f%02d" % F, "engine_state::c11_simultaneous_dial::<S, %d>" % F, ["C11"], "quick" if quick else "thorough",
+      unwind=4, unwindset=UW_C11, stubs=C11_STUBS, family="c11_simultaneous_dial")
+h("c11_scheduler_k4", "engine_state::c11_scheduler::<S, 4>", ["C11"], "thorough", unwind=6, unwindset=UW_C11,
+  stubs=C11_STUBS, family="c11_scheduler", mem_gb=24)
+
+# =============================================================================================
+# E2: real storage layer over the redb model
+# =============================================================================================
+E2_STUBS = DEFAULT_STUBS + ["time", "cteq"]
+h("e2_probe", "store_fs::e2_probe::<S>", ["C02"], "thorough", unwind=7, unwindset={r"^memcmp\.0$": 70}, stubs=E2_STUBS, family="e2_probe", mem_gb=24)
 
 COMMON_ASSUMPTIONS = [
     "bytes::Bytes drop/clone replaced by no-op/deep copy (allocation lifetime abstracted; memory safety of `bytes` not claimed)",
